@@ -5,5 +5,5 @@ src=${PYVC_REPO:-/repo}
 tmp=$(mktemp -d /tmp/pyvc-mut.XXXXXX)
 cp -r $src/PyMatterSim $tmp/PyMatterSim
 if ! patch -s -p1 -d $tmp < $pf; then echo "PATCH DID NOT APPLY"; rm -rf $tmp; exit 9; fi
-(cd "$(dirname "$0")/.." && PYVC_REPO=$tmp PYVC_NO_EVIDENCE=1 ./check $prop --tier quick "$@" 2>&1 | grep -E "^\[pyvc\]|VIOLATION|UNDECIDED|CHECKER|KNOWN|FAILED" | head -${LINES_MAX:-8}; echo "exit=${PIPESTATUS[0]}")
+(cd "$(dirname "$0")/.." && PYVC_REPO=$tmp PYVC_NO_EVIDENCE=1 PYVC_REPLAY_DIR=$tmp/replays ./check $prop --tier quick "$@" 2>&1 | grep -E "^\[pyvc\]|VIOLATION|UNDECIDED|CHECKER|KNOWN|FAILED" | head -${LINES_MAX:-8}; echo "exit=${PIPESTATUS[0]}")
 rm -rf $tmp
